@@ -11,7 +11,8 @@ EXPLANATION = (
     'these are exactly the AuthEncap/AuthDecap terms of RFC 9180 §4.1. R08.2: decision tables of the identity '
     'accessors: Auth and AuthPsk yield Some(the key material stored in the variant), Base and Psk yield None, and '
     'setup_sender/setup_receiver hand exactly that option to Kem::encap/decap. R08.3: psk enters `secret` as ikm and '
-    'psk_id enters key_schedule_context (key-schedule slots). Not decided: unforgeability itself (gap-DH assumption, '
+    'psk_id enters key_schedule_context (key-schedule slots). R08.4: the shared ExtractAndExpand helper hands its whole ikm '
+    'and kem_context parameters to LabeledExtract / LabeledExpand (no clamp or sub-slice can drop the second DH term). Not decided: unforgeability itself (gap-DH assumption, '
     'HKDF as a PRF).')
 TRUSTED = ['the gap-DH assumption and HKDF security give authentication from the static-static DH term', 'curve crates']
 ASSUME = ['a sender without skS cannot compute DH(skS, pkR)']
@@ -61,6 +62,9 @@ def run(ctx):
                           'AuthEncap/AuthDecap = Encap/Decap plus the static-static DH term and pkSm', None)
     nk = len([f for f in ('x25519', 'p256', 'p384', 'p521') if f in feats])
     rep.floor('R08.1', 'auth branches (2 per KEM)', n, 2 * nk)
+    # R08.4: the ikm handed over at those sites reaches the extract whole (a clamp to 64 bytes inside the shared helper drops
+    # the static-static DH of P-521 and nothing at the call sites changes)
+    c03.check_extract_and_expand(rep, facts, rule='R08.4')
     n2 = modes.check_identity_accessors(rep, facts, 'R08.2')
     rep.floor('R08.2', 'identity accessors', n2, 2)
     check_setup_passes_identity(rep, facts)
